@@ -13,11 +13,11 @@
      - the chain stays linear, the stable block only moves forward and is the highest block with 2 of 3 signers;
      - when nothing is in flight and no cached block is insertable, (current, stable) are those of the in-order
        run on a second real node (logged at reset), which is also what the design (Sync.tla) predicts.
-   Named deviations (known_findings.txt): Dev_CacheAddMiddle, Dev_TxsLoopVar. *)
+   Named deviations (known_findings.txt): Dev_CacheAddMiddle, Dev_TxsLoopVar, Dev_ConfirmLostDuringInsert. *)
 EXTENDS TraceBase, SyncCacheOps
 CONSTANT AllowedDev
-VARIABLES nb, nt, miners, ref, infl, seenT, lost, has, stable, sigs, slots, cc, pool
-mvars == <<nb, nt, miners, ref, infl, seenT, lost, has, stable, sigs, slots, cc, pool, l>>
+VARIABLES nb, nt, miners, ref, infl, seenT, lost, stuck, has, stable, sigs, slots, cc, pool
+mvars == <<nb, nt, miners, ref, infl, seenT, lost, stuck, has, stable, sigs, slots, cc, pool, l>>
 
 ND == 3
 Quorum == 2
@@ -52,19 +52,23 @@ NewOK(e, delivered) == \A h \in HasOf(e) \ has : h = delivered \/ Bid(h) \in Con
 KeptL(e, base, lst) == /\ \A b \in base : b \in Content(SlotsOf(e)) \/ HeightOf(b) \in HasOf(e) \/ HeightOf(b) \in lst
                        /\ Content(SlotsOf(e)) \subseteq base
 Kept(e, added) == KeptL(e, Content(slots) \cup added, lost) /\ (Sorted(slots) => Sorted(SlotsOf(e)))
-\* -- confirm cache: a confirm is cached exactly while its block is not in the chain
+\* -- confirm cache: a confirm is cached exactly while its block is not in the chain (`stuck`: confirms the named
+\*    deviation Dev_ConfirmLostDuringInsert left behind; they stay until the stable-clear reaches them)
 CcRel(e, added) == \A h \in 1..nb, d \in 0..ND :
-    CountIn(e.cc, <<h, d>>) = IF h \in HasOf(e) THEN 0 ELSE CountIn(cc, <<h, d>>) + (IF added = <<h, d>> THEN 1 ELSE 0)
+    LET n2 == CountIn(e.cc, <<h, d>>)  n1 == CountIn(cc, <<h, d>>) IN
+    IF h \in HasOf(e) THEN n2 = 0 \/ (<<h, d>> \in stuck /\ n2 = n1)
+                      ELSE n2 = n1 + (IF added = <<h, d>> THEN 1 ELSE 0)
 \* -- signers stored with the blocks: nothing invented, nothing removed, and a confirm that was received for a block
 \*    in the chain is with the block unless the block had enough signers without it
 SigRel(e, conf) == \A h \in HasOf(e) :
     LET old == IF h \in has THEN sigs[h] ELSE {}
-        avail == old \cup {d \in 0..ND : CountIn(cc, <<h, d>>) > 0} \cup (IF conf # <<>> /\ conf[1] = h THEN {conf[2]} ELSE {})
+        avail == old \cup (IF h \in has THEN {} ELSE {d \in 0..ND : CountIn(cc, <<h, d>>) > 0})
+                     \cup (IF conf # <<>> /\ conf[1] = h THEN {conf[2]} ELSE {})
         new == SigsOf(e)[h]
     IN old \subseteq new /\ new \subseteq avail /\ (new = avail \/ Enough(new, h))
 NoInsertable(e) == \A b \in Content(SlotsOf(e)) : ~Known(HasOf(e), HeightOf(b) - 1)
 AllDelivered(f) == \A m \in DOMAIN f : f[m] = 0
-Converges(e, f, lst) == (AllDelivered(f) /\ NoInsertable(e) /\ lst = {}) => e.cur = ref[1] /\ e.stable = ref[2]
+Converges(e, f, lst) == (AllDelivered(f) /\ NoInsertable(e) /\ lst = {} /\ stuck' = {}) => e.cur = ref[1] /\ e.stable = ref[2]
 Common(e, f, lst) == ChainOK(e) /\ ApiOK(e) /\ Converges(e, f, lst)
 Adopt(e) == /\ has' = HasOf(e) /\ stable' = e.stable /\ sigs' = SigsOf(e) /\ slots' = SlotsOf(e) /\ cc' = e.cc /\ pool' = e.pool
             /\ UNCHANGED <<nb, nt, miners, ref>>
@@ -77,7 +81,7 @@ DesignRef(n, cs, mi) == LET ok == {h \in 1..n : Cardinality({cs[i][2] : i \in {j
 TReset == /\ Ev("reset")
           /\ nb' = E.nb /\ nt' = E.nt /\ miners' = E.miners /\ ref' = <<E.ref_cur, E.ref_stable>>
           /\ <<E.ref_cur, E.ref_stable>> = DesignRef(E.nb, E.confs, E.miners)   \* real in-order run = the design's in-order run
-          /\ infl' = [m \in Msgs(E.nb, E.confs, E.nt) |-> 1] /\ seenT' = FALSE /\ lost' = {}
+          /\ infl' = [m \in Msgs(E.nb, E.confs, E.nt) |-> 1] /\ seenT' = FALSE /\ lost' = {} /\ stuck' = {}
           /\ E.cur = 0 /\ E.stable = 0 /\ E.has = <<>> /\ E.slots = <<>> /\ E.cc = <<>> /\ E.pool = <<>>
           /\ has' = {} /\ stable' = 0 /\ sigs' = [h \in 1..E.nb |-> {}] /\ slots' = <<>> /\ cc' = <<>> /\ pool' = <<>>
 
@@ -88,7 +92,7 @@ IsSuffix(s, t) == Len(s) <= Len(t) /\ s = SubSeq(t, Len(t) - Len(s) + 1, Len(t))
 \* ---- a block arrives
 TBlock == /\ Ev("Deliver") /\ E.a[1][1] = "B"
           /\ LET h == E.a[1][2]  b == Bid(E.a[1][2]) IN
-             /\ Take(E.a[1]) /\ UNCHANGED seenT
+             /\ Take(E.a[1]) /\ UNCHANGED <<seenT, stuck>>
              /\ E.pool = pool /\ SigRel(E, <<>>) /\ CcRel(E, <<>>)
              /\ IF h \in has \/ h <= stable                        \* stale: nothing happens
                 THEN NewOK(E, 0) /\ Kept(E, {}) /\ lost' = lost
@@ -106,18 +110,48 @@ TBlock == /\ Ev("Deliver") /\ E.a[1][1] = "B"
              /\ Common(E, infl', lost')
           /\ Adopt(E)
 
+\* Dev_ConfirmLostDuringInsert: deputy d's confirm for h was handled while the engine was busy inserting h - the handler did
+\* not find the block and cached the confirm; the block is in the chain without it and the confirm sits in the cache
+\* (until the stable-clear takes it).  Nothing else differs.
+RaceDev(e, h, d) ==
+    /\ "Dev_ConfirmLostDuringInsert" \in AllowedDev
+    /\ h \notin has /\ h \in HasOf(e) /\ e.path = "cache"
+    /\ SigRel(e, <<>>)
+    /\ stuck' = stuck \cup {<<h, d>>}
+    /\ \A x \in 1..nb, y \in 0..ND :
+          LET n2 == CountIn(e.cc, <<x, y>>)  n1 == CountIn(cc, <<x, y>>) IN
+          IF <<x, y>> = <<h, d>> THEN n2 = 1 \/ (n2 = 0 /\ e.stable >= h)
+          ELSE IF x \in HasOf(e) THEN n2 = 0 \/ (<<x, y>> \in stuck /\ n2 = n1) ELSE n2 = n1
+    /\ UseDev("Dev_ConfirmLostDuringInsert")
+
 \* ---- a confirm arrives: stored with its block if the chain has it, else cached
 TConfirm == /\ Ev("Deliver") /\ E.a[1][1] = "C"
-            /\ LET h == E.a[1][2]  d == E.a[1][3] IN
+            /\ LET h == E.a[1][2]  d == E.a[1][3]
+                   ok == SigRel(E, <<h, d>>) /\ CcRel(E, IF h \in has THEN <<>> ELSE <<h, d>>) IN
                /\ Take(E.a[1]) /\ UNCHANGED <<seenT, lost>>
                /\ E.pool = pool /\ NewOK(E, 0) /\ Kept(E, {})
-               /\ SigRel(E, <<h, d>>) /\ CcRel(E, IF h \in has THEN <<>> ELSE <<h, d>>)
+               /\ \/ ok /\ stuck' = stuck
+                  \/ ~ok /\ RaceDev(E, h, d)         \* (the queue timer was inserting the block from the cache at that moment)
                /\ Common(E, infl', lost)
             /\ Adopt(E)
 
+\* ---- a confirm arrives while the engine is busy inserting its block (the harness holds the engine inside InsertBlock):
+\*      the outcome must be that of the two messages handled one after the other
+TRace == /\ Ev("RaceInsert")
+         /\ LET h == E.a[1]  d == E.a[2]  mb == <<"B", E.a[1], 0>>  mc == <<"C", E.a[1], E.a[2]>>
+                ok == SigRel(E, <<E.a[1], E.a[2]>>) /\ CcRel(E, <<>>) IN
+            /\ mb \in DOMAIN infl /\ mc \in DOMAIN infl /\ infl[mb] > 0 /\ infl[mc] > 0
+            /\ infl' = [infl EXCEPT ![mb] = @ - 1, ![mc] = @ - 1] /\ UNCHANGED <<seenT, lost>>
+            /\ h \notin has /\ h > stable /\ Known(has, h - 1)
+            /\ E.pool = pool /\ h \in HasOf(E) /\ NewOK(E, h) /\ Kept(E, {})
+            /\ \/ ok /\ stuck' = stuck
+               \/ ~ok /\ RaceDev(E, h, d)
+            /\ Common(E, infl', lost)
+         /\ Adopt(E)
+
 \* ---- a transaction batch arrives
 TTxs == /\ Ev("Deliver") /\ E.a[1][1] = "T"
-        /\ Take(E.a[1]) /\ seenT' = TRUE /\ UNCHANGED lost
+        /\ Take(E.a[1]) /\ seenT' = TRUE /\ UNCHANGED <<lost, stuck>>
         /\ NewOK(E, 0) /\ SigRel(E, <<>>) /\ Kept(E, {}) /\ CcRel(E, <<>>)
         /\ E.valid = nt
         /\ \/ ToSet(E.pool) = 1..nt /\ Len(E.pool) = nt                       \* every valid tx pending exactly once
@@ -130,21 +164,21 @@ TTxs == /\ Ev("Deliver") /\ E.a[1][1] = "T"
 
 \* ---- the network duplicates a message in flight: the node sees nothing
 TDuplicate == /\ Ev("Duplicate")
-              /\ E.a[1] \in DOMAIN infl /\ infl[E.a[1]] > 0 /\ infl' = [infl EXCEPT ![E.a[1]] = @ + 1] /\ UNCHANGED <<seenT, lost>>
+              /\ E.a[1] \in DOMAIN infl /\ infl[E.a[1]] > 0 /\ infl' = [infl EXCEPT ![E.a[1]] = @ + 1] /\ UNCHANGED <<seenT, lost, stuck>>
               /\ E.pool = pool /\ NewOK(E, 0) /\ SigRel(E, <<>>) /\ Kept(E, {}) /\ CcRel(E, <<>>)
               /\ Common(E, infl', lost)
               /\ Adopt(E)
 
 \* ---- the queue timer has fired as often as needed: no cached block has a known parent any more
-TDrain == /\ Ev("TimerDrain") /\ UNCHANGED <<infl, seenT, lost>>
+TDrain == /\ Ev("TimerDrain") /\ UNCHANGED <<infl, seenT, lost, stuck>>
           /\ E.pool = pool
           /\ NoInsertable(E)
           /\ NewOK(E, 0) /\ SigRel(E, <<>>) /\ Kept(E, {}) /\ CcRel(E, <<>>)
           /\ Common(E, infl, lost)
           /\ Adopt(E)
 
-TraceNext == TReset \/ TBlock \/ TConfirm \/ TTxs \/ TDuplicate \/ TDrain
-TraceSpec == /\ l = 1 /\ nb = 0 /\ nt = 0 /\ miners = <<>> /\ ref = <<0, 0>> /\ infl = <<>> /\ seenT = FALSE /\ lost = {}
+TraceNext == TReset \/ TBlock \/ TConfirm \/ TRace \/ TTxs \/ TDuplicate \/ TDrain
+TraceSpec == /\ l = 1 /\ nb = 0 /\ nt = 0 /\ miners = <<>> /\ ref = <<0, 0>> /\ infl = <<>> /\ seenT = FALSE /\ lost = {} /\ stuck = {}
              /\ has = {} /\ stable = 0 /\ sigs = <<>> /\ slots = <<>> /\ cc = <<>> /\ pool = <<>>
              /\ [][TraceNext]_mvars
 ====
